@@ -3,9 +3,11 @@
 Ties: regex correspondence for the (rewritten) boolean regexes; unit correspondence of RTV.Choice (Lean driver) against
 `StringUtility.remove_unicode_matches`, `ChoiceExtractor.__tokenize`, `match_value`, `extract`; pipeline: every
 alternative of EnglishChoice.TrueRegex / FalseRegex (enumerated from the resource text of the working tree; emoji as
-single code points) x {lower, UPPER, Title} x contexts through `recognize_boolean`, with the property itself as oracle
+single code points, and each emoji followed by each of the five skin-tone modifiers of the `(…)?` group — two code
+points) x {lower, UPPER, Title} x contexts through `recognize_boolean`, with the property itself as oracle
 (one entity, exact span, polarity, score in [0,1]); neutral strings -> nothing; both polarities -> one listed entity.
-Every pipeline query is also answered by the model (`bool.rec`) and compared."""
+Every pipeline query is also answered by the model (`bool.rec`) and compared — span, text, value AND the reported
+score (the model says: the parser's default 0.0, `RTV.Choice.parserScore`)."""
 import itertools
 import re
 
@@ -16,12 +18,16 @@ PROP = 'C20'
 LEVEL = 'proof'
 PROPS_MODULES = ['RTV.Props.C20']
 GEN = ['chartables', 'regexes', 'emojitable']
-REQUIRED_THEOREMS = ['alts_polarity', 'alts_listed', 'neutral_nothing', 'both_polarities_one_entity',
-                     'reported_score_unit_interval', 'score_unit_interval', 'same_polarity_one_entity',
+# not listed on purpose: `reported_score_is_parser_default` (holds by the shape of the code: the parser hands on a
+# constructor default; its tie is the `bool.rec` correspondence below, which compares the reported score)
+REQUIRED_THEOREMS = ['alts_polarity', 'alts_listed', 'alts_complete', 'no_match_nothing', 'neutral_nothing_sample',
+                     'both_polarities_one_entity', 'both_polarities_one_entity_all',
+                     'score_unit_interval', 'same_polarity_one_entity',
                      'repeated_expression_one_entity', 'rewrite_true_regex', 'prefix_rewrite_loses_thumbs_up',
                      'prefix_first_occurrence_span', 'prefix_matchValue_can_exceed_one', 'prefix_not_ok_not_sure_raised']
 RULE = ('alternatives enumerated from EnglishChoice.TrueRegex/FalseRegex of the working tree (`\\s+` as 1 and 3 blanks; '
-        'surrogate pairs / \\u0001Fxxx escapes as the single code point they denote) x {lower, UPPER, Title} x 12 contexts '
+        'surrogate pairs / \\u0001Fxxx escapes as the single code point they denote; every emoji also followed by each '
+        'skin-tone modifier of the optional group: 25 two-code-point alternatives) x {lower, UPPER, Title} x 12 contexts '
         '(punctuation, filler words, blanks, tabs) + contexts with a filler word that contains the alternative as a '
         'substring; neutral pool incl. empty / whitespace-only / words containing alternatives inside (nobody, okay, '
         'yesterday); every (true, false) pair in both orders x 3 separators; every pair of one polarity x 3 separators, every expression 2x / 3x, fixed probes with repeated tokens ("not ok not sure", "no no", "yes yes yes"), seeded lists of 3-6 listed words; non-trivial = distinct query with an entity')
@@ -34,7 +40,8 @@ CONTEXTS = ['{}', '{}.', '{}!', ' {} ', '({})', 'well, {}', '{}, thanks', 'um {}
             'hmm... {} ...', '\t{}\n']
 NEUTRAL = ['', ' ', '   ', '\t\n', 'maybe', 'later', 'perhaps', 'hello there', '42', '?', '...', 'nobody', 'okay',
            'yesterday', 'yessir', 'note', 'nothing', 'surely', 'agreed', 'disagrees', 'falsely', 'truest', 'n', 'o k',
-           'maybe later, perhaps', 'nobody knows...', '(okay)', 'notok', 'not-okay', 'yesno', '😀', '🎉 party', 'ye s']
+           'maybe later, perhaps', 'nobody knows...', '(okay)', 'notok', 'not-okay', 'yesno', '😀', '🎉 party', 'ye s',
+           '\U0001F3FD', '😀\U0001F3FD', 'ye\U0001F3FDs', '\U0001F3FB\U0001F3FF']
 CULTURE = 'en-us'
 
 
@@ -77,7 +84,8 @@ def decode_escapes(alt):
 
 
 def alternatives(pattern):
-    """-> (words: [str] with `\\s+` instantiated, emoji: [str]) read off the pattern text `\\b(w|w|…)\\b|(e|e|…)(skin)?`"""
+    """-> (words: [str] with `\\s+` instantiated, emoji: [str]) read off the pattern text `\\b(w|w|…)\\b|(e|e|…)(skin)?`;
+    emoji = every emoji alone (one code point) followed by every emoji + skin-tone modifier of the optional group"""
     top = split_top(pattern)
     words, emojis = [], []
     for part in top:
@@ -92,14 +100,20 @@ def alternatives(pattern):
                 else:
                     raise common.InfraError('C20: cannot enumerate alternative %r of %r' % (w, pattern))
             continue
-        m = re.match(r'\((.*?)\)(\(.*\)\?)?$', part)
+        m = re.match(r'\((.*?)\)(?:\((.*)\)\?)?$', part)
         if m:
-            for e in split_top(m.group(1)):
-                d = decode_escapes(e)
-                if d is None:
-                    raise common.InfraError('C20: cannot decode emoji alternative %r' % e)
-                if d not in emojis:
-                    emojis.append(d)
+            base, skins = [], []
+            for grp, out in ((m.group(1), base), (m.group(2), skins)):
+                for e in (split_top(grp) if grp else []):
+                    d = decode_escapes(e)
+                    if d is None:
+                        raise common.InfraError('C20: cannot decode emoji alternative %r' % e)
+                    if d not in out:
+                        out.append(d)
+            for e in base:
+                for x in [e] + [e + k for k in skins]:
+                    if x not in emojis:
+                        emojis.append(x)
             continue
         raise common.InfraError('C20: unexpected top-level branch %r' % part)
     return words, emojis
@@ -131,8 +145,25 @@ class Impl:
         self.su = StringUtility
 
 
+def fmt_score(sc):
+    return repr(float(sc)) if isinstance(sc, (int, float)) and not isinstance(sc, bool) else 'bad:%r' % (sc,)
+
+
 def fmt_rec(rs):
-    return ';'.join('%d:%d:%s:%d' % (r.start, r.end, cps(r.text), 1 if r.resolution['value'] is True else 0) for r in rs)
+    return ';'.join('%d:%d:%s:%d:%s' % (r.start, r.end, cps(r.text), 1 if r.resolution['value'] is True else 0,
+                                        fmt_score(r.resolution.get('score'))) for r in rs)
+
+
+def model_rec(line):
+    """the driver's `bool.rec` answer with the score fraction `num/den` as the float's repr (as `fmt_rec`)"""
+    if line.startswith('err') or not line:
+        return line
+    out = []
+    for part in line.split(';'):
+        head, sc = part.rsplit(':', 1)
+        n, d = sc.split('/')
+        out.append('%s:%s' % (head, repr(int(n) / int(d)) if int(d) else 'bad:' + sc))
+    return ';'.join(out)
 
 
 def run_query(impl, q):
@@ -166,7 +197,7 @@ def check_positive(ctx, impl, q, a, b, polarity, expr, family, sig_hint=None):
             bad = 'span [%d,%d] instead of [%d,%d]' % (r.start, r.end, a, b - 1)
         elif r.text != q[a:b]:
             bad = 'text %r' % r.text
-        elif not (isinstance(sc, (int, float)) and 0 <= sc <= 1):
+        elif not (isinstance(sc, (int, float)) and not isinstance(sc, bool) and 0 <= sc <= 1):
             bad = 'score %r outside [0,1]' % (sc,)
     if bad:
         sig = sig_hint(rs) if sig_hint else family
@@ -264,7 +295,8 @@ def correspond(ctx):
                     lst = (tw + te) if x.resolution['value'] is True else (fw + fe)
                     sc = x.resolution.get('score')
                     ok = (x.text.lower() in lst and q[x.start:x.end + 1] == x.text and
-                          isinstance(x.resolution['value'], bool) and 0 <= sc <= 1)
+                          isinstance(x.resolution['value'], bool) and
+                          isinstance(sc, (int, float)) and not isinstance(sc, bool) and 0 <= sc <= 1)
                 if ok:
                     ctx.nontriv(('both', q))
                 else:
@@ -284,7 +316,7 @@ def correspond(ctx):
             lst = (tw + te) if x.resolution['value'] is True else (fw + fe)
             sc = x.resolution.get('score')
             ok = (x.text.lower() in lst and q[x.start:x.end + 1] == x.text and isinstance(x.resolution['value'], bool)
-                  and isinstance(sc, (int, float)) and 0 <= sc <= 1)
+                  and isinstance(sc, (int, float)) and not isinstance(sc, bool) and 0 <= sc <= 1)
         if ok:
             ctx.nontriv((family, q))
         else:
@@ -317,6 +349,7 @@ def correspond(ctx):
     ctx.count('model-vs-recognize_boolean', len(lines))
     for q, m in zip(queries, model):
         _, out = run_query(impl, q)
+        m = model_rec(m)
         if out != m:
             ctx.report('correspondence', 'recognise', 'recognize_boolean(%r): implementation %s, model %s' % (q, out, m),
                        failing_input={'op': 'bool.rec', 'query': q, 'implementation': out, 'model': m})
